@@ -133,6 +133,7 @@ VocabOf(v) ==
     [] v = "ops"   -> <<Op, Label("x"), RefOp("ldlit", "a", 8), RefOp("ldlit", "x", 0), RefOp("pg", "a", 8),
                         RefOp("pg", "b", 0), RefOp("lo", "a", 8), RefOp("lo", "x", 4), RefOp("got", "a", 0),
                         RefOp("got", "b", 4), RefOp("gotlo", "a", 0), RefOp("lea", "a", 8),
+                        RefOp("ldlit", "b", 4),
                         JmpOff("a"), JccOff("x"), CallOff("b")>>
     [] v = "mini"  -> <<Op, Jmp("x"), Label("x"), Byte(1), Ret>>
 Vocab == VocabOf(VocabName)
